@@ -53,7 +53,9 @@ RULE = (
     "sequences (quick); 250 (quick) / 2500 (thorough) random sequences of 3-14 (quick) / 3-24 (thorough) calls, each run on all four backends, over 3 keyspaces, boundary ids, payloads "
     "{empty, 1 B, 2-15 B, 4 KiB, 1 MiB (thorough)}, boundary stamps, bulk calls with repeated ids, reopen after any "
     "prefix; in half of the random cases keyspace 2 is first touched by a tombstone. non-trivial = distinct (case, result) "
-    "pairs with >= 2 calls whose observations contain both a tombstone row and a live document"
+    "pairs with >= 2 calls whose observations contain both a tombstone row and a live document. Component rows (hx-rows, "
+    "shared with C10): SQLite only; a multi_put of 1-5 rows of which one (first, middle or last) is refused by the engine "
+    "(a trigger on state_entries): the call errs, none of its rows is stored and the next put/get on the same handle is served"
 )
 
 
@@ -91,6 +93,10 @@ def run(ck):
                                   extra_args=extra + ["--replay", f], name=nm, nontrivial=nontrivial)
         ck.correspondence("hx-store", "store", "hx-store", model_project="storage",
                           extra_args=main_extra, nontrivial=nontrivial, name="store")
+        # a refused row in the middle of a bulk write on the SQLite backend (hx-rows, `bulk` cases): the contract
+        # "a failed bulk call wrote exactly the ids it reports" (here: none) and the store keeps serving
+        if V.build_model("core")[0]:
+            ck.correspondence("hx-rows", "rows", "hx-store", nontrivial=lambda c, r: "err" in r, name="rows")
     if os.path.isdir(scratch):
         import shutil
         shutil.rmtree(scratch, ignore_errors=True)
